@@ -335,6 +335,17 @@ pub fn check_case(c: &StreamCase, prop: &str, rep: &mut Report, trace: &mut Opti
         vs.push(format!("panic in the streaming decoder: {}", t.msg));
     }
     vs.extend(t.problems.iter().cloned());
+    if c.mode == "c16" && t.verdict != Verdict::Panic {
+        // once the size in effect is reached (exactly, or overshot by the last copy) nothing more may be decoded:
+        // the sink can never hold more than the symbols up to and including the one that reached it produce
+        if let (Some(sz), Some((p, dict, _, _))) = (size_eff, refdec::parse_header(&data, c.opt.header_len() == 13)) {
+            if let Some(r) = refdec::decode(&data[c.opt.header_len()..], p, dict, Some(sz), None) {
+                if r.end == End::SizeReached && t.out.len() > r.out.len() {
+                    vs.push(format!("the declared size {} was reached after {} output bytes but the sink received {} bytes: decoding went on after the stream was complete", sz, r.out.len(), t.out.len()));
+                }
+            }
+        }
+    }
     match c.mode.as_str() {
         "c05" | "c16" => {
             if one.verdict == Verdict::Panic {
@@ -344,7 +355,8 @@ pub fn check_case(c: &StreamCase, prop: &str, rep: &mut Report, trace: &mut Opti
                     vs.push("zero input must finish successfully with empty output".into());
                 }
             } else if t.verdict != Verdict::Panic {
-                let extra = false;
+                // with allow_incomplete the streaming verdict is by design not the one-shot verdict
+                let extra = c.allow_incomplete;
                 if !extra && (t.verdict == Verdict::Ok) != (one.verdict == Verdict::Ok) {
                     vs.push(format!(
                         "streaming verdict {:?} ({}) differs from one-shot verdict {:?} ({})",
@@ -819,10 +831,61 @@ pub fn mutate(rng: &mut StdRng, g: &GenStream, how: usize) -> (Vec<u8>, String) 
     }
 }
 
+/// Tiny streams (0..3 symbols; 10..30 bytes in all) under every option style, in EVERY composition into at most
+/// three write calls - including the single write - optionally preceded / followed by empty writes.
+/// This is the composition space MC_Stream explores exhaustively for small totals, instantiated on real bytes.
+pub fn tiny_streams(prop: &str, mode: &str, rep: &mut Report) {
+    let p = Props { lc: 3, lp: 0, pb: 2 };
+    let progs: Vec<Vec<Sym>> = vec![
+        vec![],
+        vec![Sym::Lit { b: b'H' }],
+        vec![Sym::Lit { b: b'H' }, Sym::Lit { b: b'i' }, Sym::Lit { b: b'!' }],
+        vec![Sym::Lit { b: 0 }, Sym::Rep { r: 0, n: 17 }],
+        vec![Sym::Lit { b: b'a' }, Sym::Lit { b: b'b' }, Sym::Match { d: 2, n: 6 }],
+    ];
+    for (pi, prog) in progs.iter().enumerate() {
+        let n = coding::encode_program(prog, p).out.len() as u64;
+        for style in 0..5 {
+            let (opt, field, marker) = match style {
+                0 => (Opt::ReadFromHeader, Some(u64::MAX), true),
+                1 => (Opt::ReadFromHeader, Some(n), false),
+                2 => (Opt::ReadHeaderButUseProvided { n: Some(n) }, Some(n + 7), false),
+                3 => (Opt::UseProvided { n: Some(n) }, None, false),
+                _ => (Opt::UseProvided { n: None }, None, true),
+            };
+            let mut pr = prog.clone();
+            if marker {
+                pr.push(Sym::Eos);
+            }
+            let enc = coding::encode_program(&pr, p);
+            let mut data = lzma_header(p, 4096, field);
+            data.extend_from_slice(&enc.payload);
+            let len = data.len();
+            let one = api::lzma_bytes(&data, &api::options(opt, None, false));
+            let dh = hex(&data);
+            let mut cutsets: Vec<Vec<usize>> = vec![vec![], vec![0], vec![len], vec![0, 0, len, len]];
+            for a in 1..len {
+                cutsets.push(vec![a]);
+                for b in [a, a + 1, a + 2, a + 5, len - 1] {
+                    if b >= a && b < len {
+                        cutsets.push(vec![a, b]);
+                    }
+                }
+            }
+            for cuts in cutsets {
+                let c = StreamCase { data_hex: dh.clone(), opt, memlimit: None, allow_incomplete: false, cuts, origin: format!("tiny#{}style{}", pi, style), mode: mode.into(), extra_writes: vec![] };
+                check_against_oneshot(&c, &data, &one, prop, rep);
+            }
+        }
+    }
+    rep.sample(json!({"origin": "tiny_streams", "what": "0..3-symbol streams x 5 option styles x every composition into <= 3 writes (single write, leading / trailing empty writes included)"}));
+}
+
 pub fn run_c05(prop: &str, seed: u64, nstreams: usize, nsyms: usize, trace_path: Option<&str>, rep: &mut Report) {
     let mut rng = StdRng::seed_from_u64(seed ^ 0x57ea);
     let mut trace: Option<Vec<String>> = trace_path.map(|_| vec![]);
     early_errors(prop, "c05", seed, rep, &mut trace);
+    tiny_streams(prop, "c05", rep);
     // worst-case symbol: every cut position inside the most expensive symbol we can construct, and every
     // pair (cut, cut + k): the symbol is then completed through the partial input buffer
     for far in [false, true] {
@@ -1033,6 +1096,50 @@ pub fn run_c16(prop: &str, seed: u64, nstreams: usize, nsyms: usize, trace_path:
                 rep.sample(json!({"origin": c.origin, "bytes": data.len(), "extra_writes": c.extra_writes}));
             }
         }
+    }
+    // declared size falling strictly inside a copy, with more symbols after it: the stream is complete (and
+    // wrong) at that copy; later writes must consume nothing and deliver nothing
+    for i in 0..nstreams.max(4) {
+        let props = [Props { lc: 3, lp: 0, pb: 2 }, Props { lc: 0, lp: 2, pb: 0 }, Props { lc: 1, lp: 1, pb: 4 }][i % 3];
+        let mut prog = random_walk(&mut rng, &WalkCfg { nsyms: 3 + i % 9, props, max_dist: 64, lit_alphabet: 4 });
+        if prog.is_empty() {
+            continue;
+        }
+        let before = coding::encode_program(&prog, props).out.len() as u64;
+        let n = 3 + (i % 11) as u32;
+        prog.push(Sym::Match { d: 1 + (i as u64 % before.max(1)).min(before.saturating_sub(1)), n });
+        let tail = random_walk(&mut rng, &WalkCfg { nsyms: 4 + i % 30, props, max_dist: 8, lit_alphabet: 200 });
+        // the tail was generated for an empty history; keep only what is valid after the prefix
+        let mut cs = coding::CS::default();
+        for sy in &prog {
+            if !cs.valid(sy) {
+                break;
+            }
+            cs.apply(sy);
+        }
+        if cs.out.len() as u64 != before + n as u64 {
+            continue;
+        }
+        for sy in tail {
+            if cs.valid(&sy) {
+                cs.apply(&sy);
+                prog.push(sy);
+            }
+        }
+        let sz = before + 1 + (i as u64 % (n as u64 - 1));
+        let (opt, field) = match i % 3 {
+            0 => (Opt::ReadFromHeader, Some(sz)),
+            1 => (Opt::ReadHeaderButUseProvided { n: Some(sz) }, Some(u64::MAX)),
+            _ => (Opt::UseProvided { n: Some(sz) }, None),
+        };
+        let enc = coding::encode_program(&prog, props);
+        let mut data = lzma_header(props, 4096, field);
+        data.extend_from_slice(&enc.payload);
+        let gg = GenStream { data: data.clone(), opt, origin: String::new(), bounds: vec![] };
+        let cuts = gen_cuts(&mut rng, &gg, i);
+        let c = StreamCase { data_hex: hex(&data), opt, memlimit: None, allow_incomplete: i % 2 == 0, cuts, origin: format!("size-inside-copy/{}of{}", sz - before, n), mode: "c16".into(), extra_writes: vec![] };
+        let mut none = None;
+        check_case(&c, prop, rep, &mut none);
     }
     if let (Some(p), Some(t)) = (trace_path, trace) {
         std::fs::write(p, t.join("\n") + "\n").expect("write trace");
